@@ -16,7 +16,7 @@ def evOf (t : String) : Option Ev :=
   | ["t", ms] => ms.toNat?.map .adv
   | ["d", x] => (optNat x).map .rd
   | ["w", p, t] => if (p = "0" ∨ p = "1") ∧ (t = "0" ∨ t = "1") then some (.wr (p == "1") (t == "1")) else none
-  | ["K"] => some .wrOk | ["F"] => some .wrFail | ["A"] => some .wrAbort
+  | ["K"] => some .wrOk | ["F"] => some .wrFail | ["A"] => some .wrAbort | ["N"] => some .wrFatal
   | ["x"] => some .stop | ["e"] => some .eol
   | _ => none
 
